@@ -476,7 +476,7 @@ func cmdParse(args []string) int {
 		for i := 0; i < *n; i++ {
 			q := g.next()
 			queries = append(queries, q)
-			if *mode == "c01" && i%5 == 0 {
+			if (*mode == "c01" || *mode == "c02") && i%5 == 0 {
 				// the same query without sigils (no SQLair expression: must reach the driver unchanged),
 				// followed by a copy that differs from it only in white space
 				plain := strings.NewReplacer("$", "", "&", "").Replace(q)
@@ -534,6 +534,10 @@ func cmdParse(args []string) int {
 				addViol(violation{"C01", "plain-query-not-runnable", "x" + hex.EncodeToString([]byte(q)), err.Error()})
 			} else if got != q {
 				addViol(violation{"C01", "plain-query-changed", "x" + hex.EncodeToString([]byte(q)), fmt.Sprintf("driver received %q", got)})
+				if regs, _ := lexRegions(q); len(regs) > 0 {
+					// the query has literals or comments: their text must pass through unchanged
+					addViol(violation{"C02", "text-with-literals-or-comments-changed", "x" + hex.EncodeToString([]byte(q)), fmt.Sprintf("driver received %q", got)})
+				}
 			}
 		}
 		caseStart.Store(0)
